@@ -16,8 +16,22 @@ import odl
 LIM = 2 ** 30
 
 DTYPES = ['int32', 'int64', 'float32', 'float64', 'complex64', 'complex128']
-GIVEN_DTYPE = {'int32': 'int64', 'int64': 'float64', 'float32': 'float64', 'float64': 'complex128',
-               'complex64': 'complex128', 'complex128': 'complex128', 'bool': 'int64'}
+# the dtype ladder of UfuncSem (WiderDT / NarrowerDT); None = "n/a"
+WIDER = {'bool': 'int64', 'int32': 'int64', 'int64': 'float64', 'float32': 'float64', 'float64': 'complex128',
+         'complex64': 'complex128'}
+NARROWER = {'int64': 'int32', 'float64': 'float32', 'complex128': 'complex64'}
+
+
+def rel_dtype(mode, name):
+    """RelDT of UfuncSem: 'none' -> 'none'; 'same' / 'wider' / 'narrower' relative to dtype `name`; None = n/a."""
+    if mode == 'none':
+        return 'none'
+    if mode == 'same':
+        return name
+    if mode in ('wider', 'given'):
+        return WIDER.get(name)
+    return NARROWER.get(name)
+
 
 EXACT_BINARY = {'add', 'subtract', 'multiply', 'maximum', 'minimum', 'equal', 'not_equal', 'less', 'less_equal',
                 'greater', 'greater_equal', 'logical_and', 'logical_or', 'logical_xor'}
@@ -268,7 +282,7 @@ def data_of(el):
     return [d for part in el for d in data_of(part)]
 
 
-def make_out(case, shape, dtype, variant, layout='C'):
+def make_out(case, shape, dtype, variant, layout='C'):  # dtype: the dtype of the OUT object
     """The object handed over as out= for one output (pre-filled with a recognisable value), stored in the given
     memory layout.  Returns (out object, backing array)."""
     ok = case['outkind']
@@ -278,7 +292,7 @@ def make_out(case, shape, dtype, variant, layout='C'):
     back = lay(np.full(shape, fill, dtype=dt), layout)
     if ok == 'ndarray':
         return back, back
-    kind = case['kind'] if ok == 'element' else 'tensor'
+    kind = case['kind'] if ok == 'element' else ok          # 'tensor' / 'discr': the other array-backed kind
     sp = make_space(kind, shape, dt, variant if kind != 'power' else 0)
     return sp.element(back), back
 
@@ -312,7 +326,9 @@ def run_case(case, uf, dtype, variant=0, exact_inputs=True, cplx=False, layout='
         xs = inject(xs, special)
         if dt_y.kind in 'fc':
             ys = inject(ys, special, shift=1)
-    dtk = GIVEN_DTYPE[dt.name] if case['dtkw'] == 'given' else 'none'
+    dtk = rel_dtype(case['dtkw'], dt.name)
+    if dtk is None:
+        raise NotApplicable('no such dtype keyword')
     kw = build_kwargs(case, dtk)
     idx = list(case['idx'])
     b = np.asarray(2).astype(dt)[()]
@@ -328,11 +344,18 @@ def run_case(case, uf, dtype, variant=0, exact_inputs=True, cplx=False, layout='
         try:
             ref = invoke(uf, method, raw_args, dict(kw), idx, b)
             if case['outkind'] != 'none' and method != 'at':
+                # the out object has the dtype RelDT(outdt, dtype produced without out); NumPy computes in dtype=
+                # and casts into out (or refuses the cast: not applicable)
                 first = list(ref) if isinstance(ref, tuple) else [ref]
-                ref_outs = [lay(np.zeros(np.shape(r), dtype=np.asarray(r).dtype), layout) for r in first]
+                out_dts = [rel_dtype(case.get('outdt', 'same'), np.asarray(r).dtype.name) for r in first]
+                if any(d is None for d in out_dts):
+                    raise NotApplicable('no such out dtype')
+                ref_outs = [lay(np.zeros(np.shape(r), dtype=d), layout) for r, d in zip(first, out_dts)]
                 raw2 = (lay(xs, lx),) if single else (lay(xs, lx), lay(ys, ly))
                 ref = invoke(uf, method, raw2, dict(kw, out=ref_outs[0] if len(ref_outs) == 1 else tuple(ref_outs)),
                              idx, b)
+        except NotApplicable:
+            raise
         except (TypeError, ValueError, IndexError) as e:
             raise NotApplicable('numpy: ' + type(e).__name__)
     if method == 'at':
@@ -376,6 +399,7 @@ def run_case(case, uf, dtype, variant=0, exact_inputs=True, cplx=False, layout='
             raise NotApplicable('out: ' + type(e).__name__)
         kw['out'] = outs[0] if len(outs) == 1 else tuple(outs)
     ev = {'k': 'uf', 'case': case, 'name': name, 'dt': dt.name, 'dtk': dtk, 'variant': variant, 'err': '',
+          'odt': refs[0].dtype.name if (case['outkind'] != 'none' and method != 'at') else 'none',
           'rkind': [], 'rshape': [], 'rdtype': [], 'ref_shape': [list(r.shape) for r in refs],
           'ref_dtype': [r.dtype.name for r in refs], 'ulp': [], 'isout': [], 'outulp': [], 'unchanged': 1,
           'layout': layout, 'wrapshare': wrapshare, 'backulp': 0, 'gaps': 1, 'exact': 0,
